@@ -283,7 +283,7 @@ func init() {
 var sims = map[string]sim.SimFunc{
 	"c12r": func(c *sim.Ctx) { tcpsim.RunC12(c, c12pkg()) },
 	"c09": func(c *sim.Ctx) {
-		tcpsim.Run(c, tcpsim.RunCfg{Strong: true, Bidir: true, Gen: tcpsim.GenCfg{MaxConns: 3, AllowNoEnd: true, AllowRST: true, SynData: true}}, mkWith(true, false))
+		tcpsim.Run(c, tcpsim.RunCfg{Strong: true, Bidir: true, Gen: tcpsim.GenCfg{MaxConns: 3, AllowNoEnd: true, AllowRST: true, SynData: true, FinalTTC: true}}, mkWith(true, false))
 	},
 	"c09clock": func(c *sim.Ctx) {
 		bubble.Run(c, func(b *bubble.B) {
